@@ -7,7 +7,7 @@ from concurrent.futures import ThreadPoolExecutor
 from pipelines import pipeline, spec_must_hold, B1
 from vlib import Infra, CORES
 
-FAMILIES = 8
+FAMILIES = 9
 PRESETS = 7
 STARTS = ["xor", "rich", "random", "read", "outfirst"]
 
@@ -161,8 +161,8 @@ def quota_size_cases(ctx, replay, prop):
 
 @pipeline("C02")
 def c02(ctx, replay):
-    ctx.rule = ("scenario matrix: 8 fitness families (all-zero, constant, linear, heavy-tailed, single dominant, stagnating, distinct "
-                "random, structure-driven) x 7 option presets (many species / stolen babies / fast stagnation with delta coding / one "
+    ctx.rule = ("scenario matrix: 9 fitness families (all-zero, constant, linear, heavy-tailed, single dominant, stagnating, distinct "
+                "random, structure-driven, tiny distinct positive values around 1e-7) x 7 option presets (many species / stolen babies / fast stagnation with delta coding / one "
                 "species with everybody surviving / heavy stealing with linear compatibility / mating-heavy with interspecies mating / "
                 "several long-lived mid-sized species with heavy stealing) x "
                 "population sizes 3..30 (thorough ..80) x constructors (NewPopulation from three start genomes incl. one whose sensors are not first in id order, NewPopulationRandom, "
@@ -196,7 +196,7 @@ def c10(ctx, replay):
     ctx.nontrivial = st.get("species-quota>5", 0)
 
 
-_NOTE = ("Trace validation of seeded scenarios (quick: 56 scenarios x 12-14 epochs, population 3..30; thorough: 336 scenarios x up to 30 "
+_NOTE = ("Trace validation of seeded scenarios (quick: 63 scenarios x 12-14 epochs, population 3..30; thorough: 378 scenarios x up to 30 "
          "epochs, population 3..80), not exhaustive; MC_Epoch explores the turnover protocol exhaustively on the abstract model only. "
          "Trusted: TLC, the projection of the population (harness/cmd/vh_genome/epoch.go).")
 CHECKS = {
